@@ -4,6 +4,7 @@ import (
 	"context"
 	"errors"
 	"fmt"
+	"math"
 	"os"
 	"path/filepath"
 	"sort"
@@ -568,7 +569,9 @@ func suiteMigrate(seed uint64, tier string) *Report {
 			}
 			toks = append(toks, logTok(l))
 		}
-		bb := pick(cr, []int{-1, 0, 1, 32, 33, 64, 100, 1 << 20, maxData + 32, maxData + 31, 2*maxData + 64})
+		bb := pick(cr, []int{-1, 0, 1, 32, 33, 64, 100, 1 << 20, maxData + 32, maxData + 31, 2*maxData + 64,
+			// "one batch, no limit": the extreme values of int (a size computed from batchBytes must not be handed to make)
+			math.MaxInt, math.MaxInt / 2, 1 << 62, 1 << 31, 1<<32 + 1, math.MinInt})
 		cancel := "-"
 		if cr.Chance(1, 3) {
 			cancel = fmt.Sprint(cr.Intn(nlogs + 2))
@@ -616,6 +619,9 @@ func suiteMigrate(seed uint64, tier string) *Report {
 		bbc := "small"
 		if bb > 64 {
 			bbc = "large"
+		}
+		if bb >= 1<<31 || bb == math.MinInt {
+			bbc = "extreme"
 		}
 		c.Shape = fmt.Sprintf("%s>%s/%d/%s/%v/%s", sk, dk, nlogs, bbc, cancel != "-", prog)
 		c.Tags = []string{"pair:" + sk + ">" + dk, fmt.Sprintf("n:%d", nlogs)}
